@@ -5,6 +5,7 @@
 -/
 import Drx.Riff
 import DrxProofs.Riff
+import Drx.Gen.RiffConsts
 namespace Drx.C01
 open Drx Drx.Riff
 
@@ -95,6 +96,18 @@ theorem designated_bytes (o : Order) (pre : Bytes) (len : Int) (hlen : In32 len)
 theorem locator_first_genuine (b : Bytes) (p : Nat) (hg : Genuine b p) (hmin : ∀ q, q < p → ¬ Genuine b q) :
     findRiffInExe b = p :=
   findRiffInExe_first_genuine b p hg hmin
+
+/-! (g) tie to the source: constants and struct formats REGENERATED from /repo on every run (harness/gen_riff.py) equal
+    what the hand-written model reads (markers, the `iiihhii` / `hhiiiii` + `i i h h i` / `cccc` + `i` layouts) -/
+
+theorem gen_markers :
+    RIFX = Gen.RiffConsts.rifxFileFormat.toList ∧ MV93 = Gen.RiffConsts.mv93FileType.toList ∧
+    XFIR = Gen.RiffConsts.rifxLeHeader.toList.map (fun c => UInt8.ofNat c.toNat) ∧
+    VM39 = Gen.RiffConsts.mv93LeHeader.toList.map (fun c => UInt8.ofNat c.toNat) := by decide
+
+theorem gen_formats :
+    Gen.RiffConsts.imapFormats = ["iiihhii"] ∧ Gen.RiffConsts.mmapFormats = ["hhiiiii", "i", "i", "h", "h", "i"] ∧
+    Gen.RiffConsts.chunkFormats = ["cccc", "i"] := by decide
 
 /-! ### non-vacuity: the hypotheses are met by concrete, non-trivial objects -/
 
